@@ -14,6 +14,8 @@ Clauses(e) ==
       <<"reflection-at-most-one", e.raised \/ e.maxk_ppm <= 1000000>>,
       <<"stable", e.raised \/ e.maxroot_ppm <= 1000001>>,
       <<"variance-formula", e.raised \/ Small(e.rho_dev, Tol)>>,
+      \* each k_i minimises the forward+backward error energy of its stage (errors rebuilt from k_1..k_{i-1})
+      <<"each-stage-minimises-fb-error", e.raised \/ Small(e.min_dev, Tol)>>,
       <<"variance-non-increasing", e.raised \/ e.nonincreasing>>,
       <<"nested", e.raised \/ Small(e.nest_dev, Tol)>>,
       <<"lengths", e.raised \/ e.lens>>,
